@@ -7,6 +7,7 @@ UNIT_MODES = {
 
 PROPS = {
     'C01': dict(units=['core_add'], title='add/sub/neg/abs exact in every overflow mode'),
+    'C09': dict(units=['xcast'], title='integer casts (here: CastFrom between bnum types of different digit types, 12 ordered pairs)'),
     'C14': dict(units=[], level='model_checking', title='float casts'),
 }
 
